@@ -12,7 +12,7 @@ TB = ['numpy float64 + - * / sqrt = IEEE binary64 = Coq PrimFloat; numpy sin/cos
       'theorems are over exact reals; the doubles computed by the code are tied to the same generated terms by the PrimFloat correspondence']
 
 
-def run(rep, tier, seed, prop, theorems, desc, oracle, oracle_name, per_pose=(2, 20), per_edge=(6, 150), n_oracle=(6, 200), n_search=400):
+def run(rep, tier, seed, prop, theorems, desc, oracle, oracle_name, per_pose=(2, 20), per_edge=(6, 150), n_oracle=(6, 200), n_search=400, extra=None):
     rep.cov['trusted_base'] += TB
     q = 0 if tier == 'quick' else 1
     ok, info = check.proof_stage(rep, prop, theorems, desc)
@@ -31,6 +31,7 @@ def run(rep, tier, seed, prop, theorems, desc, oracle, oracle_name, per_pose=(2,
     rep.obligation('correspondence 4.1 (poses): %d cases agree' % cps['evaluations'], c1, json.dumps((cps['disagreements'] + cps['coq_errors'])[:2], default=str)[:1500])
     rep.obligation('correspondence 4.1 (edge programs calc_error/calc_jacobians): %d cases agree' % ces['evaluations'], c2,
                    json.dumps((ces['disagreements'] + ces['coq_errors'])[:2], default=str)[:1500])
+    c3 = extra(rep, seed, q) if extra else True
     ev, fails = oracle(seed, n_oracle[q])
     rep.cov['evaluations'] = cps['evaluations'] + ces['evaluations'] + ev
     rep.cov['distinct_nontrivial'] = max(0, cps['agree'] - cps['hist'].get('raise', 0)) + ces['agree'] + ev - len(fails)
@@ -38,7 +39,7 @@ def run(rep, tier, seed, prop, theorems, desc, oracle, oracle_name, per_pose=(2,
                        'w<0, w=0, 180deg, +-pi, large/zero translations, offsets with rotation); non-trivial = value returned; oracle: ' + oracle_name)
     rep.cov['samples'] = [{'disagreement': d} for d in (cps['disagreements'] + ces['disagreements'])[:2]] or \
         [{'oracle': oracle_name, 'cases': ev, 'edge_programs': sorted(se.get('defs', {}))[:6]}]
-    broken = not (ok and c1 and c2 and not unsup)
+    broken = not (ok and c1 and c2 and c3 and not unsup)
     if broken and not fails:
         ev2, fails = oracle(seed + 1, n_search)
         rep.cov['evaluations'] += ev2
@@ -56,6 +57,8 @@ def run(rep, tier, seed, prop, theorems, desc, oracle, oracle_name, per_pose=(2,
             what.append('correspondence 4.1 (edge programs) disagrees')
         if unsup:
             what.append('translator refused: ' + ', '.join(unsup))
+        if not c3:
+            what.append('correspondence 4.3 (optimizer loop model vs Graph.optimize) disagrees')
         rep.violation('unproved', {'what': what, 'make_log_tail': info['make_log_tail'],
                                    'disagreements': (cps['disagreements'] + ces['disagreements'])[:3],
                                    'coq_errors': (cps['coq_errors'] + ces['coq_errors'])[:2]}, no_input=True)
